@@ -182,6 +182,15 @@ class _SrvStub:
 _counter = [0]
 
 
+def forget_loggers(root_name):
+    """the `logging` module keeps every logger ever made and `Logger.setLevel` walks over all of them: forget the loggers
+    of a node that is thrown away (otherwise a run is quadratic in the number of cases)"""
+    import logging
+    d = logging.Logger.manager.loggerDict
+    for name in [n for n in d if n == root_name or n.startswith(root_name + '.')]:
+        del d[name]
+
+
 def impl_routing(mods, ops):
     """run ops on the real code; returns outs (same shape as the model's)"""
     import logging
@@ -212,7 +221,10 @@ def impl_routing(mods, ops):
         return conns[c]
 
     outs = []
-    for op in ops:
+    for op in ops + [None]:
+        if op is None:
+            forget_loggers(root.name)
+            break
         kind = op[0]
         if kind == 'logging':
             _, c, spec, lvl = op
